@@ -81,7 +81,21 @@ fn extension_roundtrip(prop: &str, i: u64, rng: &mut Rng, out: &mut Outcome, dir
     let name = rand_text(rng, 255);
     let desc = rand_text(rng, 2000);
     let n_rel = if rng.chance(8) { 0 } else { rng.range(1, 3) };
-    let relays: Vec<RelayUrl> = (0..n_rel).map(|k| RelayUrl::parse(&format!("wss://r{}.example.com/{}", k, rng.below(3))).unwrap()).collect();
+    let relays: Vec<RelayUrl> = (0..n_rel)
+        .map(|k| {
+            let s = match rng.below(7) {
+                0 => format!("wss://r{k}.example.com"),
+                1 => format!("wss://r{k}.example.com/{}", rng.below(3)),
+                2 => format!("wss://r{k}.example.com/{}/", rng.below(3)),
+                3 => format!("wss://r{k}.example.com/a/b/c/"),
+                4 => format!("wss://R{k}.Example.COM:7777/Path/"),
+                5 => format!("ws://r{k}.example.com/?q=1"),
+                _ => format!("wss://r{k}.example.com//double//"),
+            };
+            out.note("relay_url_shapes", s.replace(|c: char| c.is_ascii_digit(), "N"));
+            RelayUrl::parse(&s).unwrap()
+        })
+        .collect();
     let img = rng.below(8);
     let ih = (img & 1 != 0).then(|| rng.bytes::<32>());
     let ik = (img & 2 != 0).then(|| rng.bytes::<32>());
